@@ -143,9 +143,16 @@ class C18(Check):
         'strings from the 30-string sub-alphabet A18 (pairs also over the '
         '104-string pair alphabet in thorough); <= 3 (thorough 4) distinct '
         'examples; frequencies <= 3; 8 option points',
-        'matching is re.fullmatch under UNICODE|DOTALL; where `$` before a '
-        'trailing newline makes re.match differ from fullmatch the figures '
-        'are unspecified',
+        'matching is under UNICODE|DOTALL.  rexpy\'s documentation does not '
+        'define "matches"; C03 speaks of matching in full, tdda\'s own rex '
+        'verification uses re.match (`$` also matches before one final '
+        'newline).  Where the two readings differ (examples ending in a '
+        'newline) each figure must be right under one of them: strict '
+        '(fullmatch) or loose (re.match); such cases are counted as '
+        'unspecified but still checked',
+        'figures are obtained through Extractor(examples) and through '
+        'extract(examples, as_object=True) with list / dict / Counter input, '
+        'as str and as bytes + encoding (pdextract has no as_object)',
         'whether removed empty strings count as "supplied" and whether '
         'n_examples(dedup=True) counts strings before or after stripping: '
         'either reading accepted (counted unspecified when they differ)',
